@@ -31,7 +31,8 @@ theorem window_accesses_locked :
     source where the model has it: `_set_remote_channel` stores `_sanitize_packet_size(max_packet_size)`, which is
     `clamp_value(MIN_PACKET_SIZE, max_packet_size, MAX_WINDOW_SIZE)` (facts read from the AST on every run) -/
 theorem clamp_is_in_the_source :
-    PV.Generated.C19.remote_max_packet_sanitised = true ∧ PV.Generated.C19.sanitise_is_clamp_min_max = true := by
+    PV.Generated.C19.remote_max_packet_sanitised = true ∧ PV.Generated.C19.sanitise_is_clamp_min_max = true ∧
+    PV.Generated.C19.peer_open_passes_parsed_values = true := by
   decide
 
 private theorem winv_init (inWin peerWin peerMax nthr : Nat) (c : Bool) :
